@@ -881,6 +881,21 @@ def set_remove(m, r, k):
     return True
 
 
+@model("IndexSet::pop")
+def set_pop(m, r):
+    mp = deref(r)
+    if not mp.items: return NONE()
+    return SOME(mp.items.pop()[0])
+
+
+@model("IndexMap::pop")
+def map_pop(m, r):
+    mp = deref(r)
+    if not mp.items: return NONE()
+    e = mp.items.pop()
+    return SOME(TUP(e[0], e[1]))
+
+
 @model("IndexMap::retain", "HashMap::retain", "BTreeMap::retain")
 def map_retain(m, r, f):
     mp = deref(r)
